@@ -794,6 +794,204 @@ class Fn:
         return out
 
 
+# ---------------------------------------------------------------- the generator _tokenize
+
+import re
+
+_DO = re.compile(r"^do (.+?) <- (.*);$", re.S)
+
+
+def wline(line):
+    """a `res` bind of the expression walker, lifted into the writer monad of the generator"""
+    m = _DO.match(line)
+    if m:
+        return f"dow {m.group(1)} <- liftw ({m.group(2)});"
+    if line.startswith("let "):
+        return line
+    raise Untranslatable("cannot lift: " + line[:80])
+
+
+class TokFn(Fn):
+    """_tokenize(text, state): `while True:` over the stream, yielding the tokens of the scanners.
+
+    yield _scan_*_scalar(stream, ..., is_key=True)   -> dow _ <- yield (TKey v)
+    yield _scan_*_scalar(stream, ..., is_key=False) / _scan_block_scalar(...)
+                                                     -> dow _ <- yield (TValue (s_idx stream) v)   (index at the call)
+    yield ColonToken(start_mark, end_mark)           -> dow _ <- yield TColon
+    break -> liftw (Ok tt);  raise TokenizeError(msg, stream.get_position()) -> liftw (Raise (TokenizeError (s_idx stream)))
+    (the token kinds are checked against the return statements of the scanners: KeyToken if is_key else ValueToken,
+     both built from start_mark = the position at entry)
+    """
+
+    SCALARS = {"_scan_plain_scalar": True, "_scan_flow_scalar": True, "_scan_block_scalar": False}   # has is_key?
+
+    def __init__(self, mod):
+        self.mod, self.pyname = mod, "_tokenize"
+        self.node = mod.funcs["_tokenize"]
+        self.env = {"text": "str", "state": "erased", "start_mark": "erased", "end_mark": "erased"}
+        self.tmp, self.loops, self.nloop = 0, [], 0
+        if [a.arg for a in self.node.args.args] != ["text", "state"]:
+            bad(self.node, "signature of _tokenize")
+        for name, has_key in self.SCALARS.items():
+            self.check_token_kinds(mod.funcs[name], has_key)
+
+    def check_token_kinds(self, fn, has_key):
+        """start_mark is the position at entry; the function returns KeyToken if is_key else ValueToken built from it"""
+        seen = False
+        for st in fn.body:
+            src = ast.unparse(st)
+            if isinstance(st, ast.Assign) and len(st.targets) == 1 and isinstance(st.targets[0], ast.Name) \
+                    and st.targets[0].id == "start_mark":
+                if src != "start_mark = stream.get_position()":
+                    bad(st, "start_mark is not the position at entry")
+                seen = True
+                break
+            if "forward(" in src or "_scan" in src or isinstance(st, (ast.While, ast.For, ast.If)):
+                bad(st, "the stream may move before start_mark is taken")
+        if not seen:
+            bad(fn, "no start_mark")
+        rets = [n for n in ast.walk(fn) if isinstance(n, ast.Return)]
+        if len(rets) != 1 or rets[0] is not fn.body[-1]:
+            bad(fn, "token scanner with several returns")
+        v = rets[0].value
+
+        def tok(e, cls):
+            return (isinstance(e, ast.Call) and isinstance(e.func, ast.Name) and e.func.id == cls and len(e.args) >= 3
+                    and ast.unparse(e.args[0]) == "start_mark" and ast.unparse(e.args[1]) == "end_mark")
+        if has_key:
+            if not (isinstance(v, ast.IfExp) and ast.unparse(v.test) == "is_key" and tok(v.body, "KeyToken")
+                    and tok(v.orelse, "ValueToken") and ast.unparse(v.body.args[2]) == ast.unparse(v.orelse.args[2])):
+                bad(rets[0], "expected KeyToken(start_mark, end_mark, v, ..) if is_key else ValueToken(start_mark, end_mark, v, ..)")
+        elif not tok(v, "ValueToken"):
+            bad(rets[0], "expected ValueToken(start_mark, end_mark, v, ..)")
+
+    # ---- statements in the writer monad
+    def lifted(self, pre):
+        return [wline(x) for x in pre]
+
+    def yield_stmt(self, y):
+        """lines, new stream name (None when the stream is unchanged)"""
+        c = y.value
+        if isinstance(c, ast.Call) and isinstance(c.func, ast.Name) and c.func.id == "ColonToken":
+            if [ast.unparse(a) for a in c.args] != ["start_mark", "end_mark"] or c.keywords:
+                bad(y, "ColonToken arguments")
+            return ["dow _ <- yield TColon;"], None
+        if not (isinstance(c, ast.Call) and isinstance(c.func, ast.Name) and c.func.id in self.SCALARS):
+            bad(y, "yield of something that is not a scalar scanner call")
+        name = c.func.id
+        if self.SCALARS[name]:
+            kw = {k.arg: k.value for k in c.keywords}
+            k = kw.get("is_key")
+            if not (isinstance(k, ast.Constant) and k.value in (True, False)):
+                bad(y, "is_key is not a literal")
+            is_key = k.value
+        else:
+            is_key = False
+        pre, val, ty = self.scanner_call(c)
+        if ty != "str" or len(pre) < 2 or not pre[-1].startswith("let '(stream, "):
+            bad(y, "scanner result")
+        new = self.fresh("s")
+        pre[-1] = pre[-1].replace("let '(stream, ", f"let '({new}, ", 1)
+        tokc = f"(TKey {val})" if is_key else f"(TValue (s_idx stream) {val})"
+        return self.lifted(pre) + [f"dow _ <- yield {tokc};"], new
+
+    def wstmts(self, body, k):
+        if not body:
+            return k()
+        s, rest = body[0], body[1:]
+        nxt = lambda: self.wstmts(rest, k)
+        if isinstance(s, ast.Expr) and isinstance(s.value, ast.Constant) and isinstance(s.value.value, str):
+            return nxt()
+        if isinstance(s, ast.Pass):
+            return nxt()
+        if isinstance(s, ast.Assign) and len(s.targets) == 1 and isinstance(s.targets[0], ast.Name):
+            n = s.targets[0].id
+            if self.env.get(n) == "erased":
+                if ast.unparse(s.value) != "stream.get_position()":
+                    bad(s, "mark variable")
+                return nxt()
+            if n == "ch" and ast.unparse(s.value) == "stream.peek()":
+                pre, t, ty = self.expr(s.value)
+                self.env["ch"] = "char"
+                return "\n".join(self.lifted(pre) + [f"let ch := {t} in", nxt()])
+            bad(s, "assignment in _tokenize")
+        if isinstance(s, ast.Expr) and isinstance(s.value, ast.Call):
+            c = s.value
+            if ast.unparse(c) == "stream.forward()":
+                return "dow stream <- liftw (forward stream 1%nat);\n" + nxt()
+            if isinstance(c.func, ast.Name) and c.func.id in FUNCS and not [r for r in FUNCS[c.func.id][2] if r != "erased"]:
+                pre, _, _ = self.scanner_call(c)
+                return "\n".join(self.lifted(pre) + [nxt()])
+            bad(s, "call statement in _tokenize")
+        if isinstance(s, ast.Expr) and isinstance(s.value, ast.Yield):
+            lines, new = self.yield_stmt(s.value)
+            if new:
+                lines.append(f"let stream := {new} in")
+            return "\n".join(lines + [nxt()])
+        if isinstance(s, ast.If):
+            # guard: break / raise
+            if len(s.body) == 1 and not s.orelse and isinstance(s.body[0], (ast.Break, ast.Raise)):
+                pre, c = self.test(s.test)
+                if isinstance(s.body[0], ast.Break):
+                    act = "liftw (Ok tt)"
+                else:
+                    r = s.body[0].exc
+                    if not (isinstance(r, ast.Call) and isinstance(r.func, ast.Name) and r.func.id == "TokenizeError"
+                            and len(r.args) == 2 and not r.keywords and ast.unparse(r.args[1]) == "stream.get_position()"):
+                        bad(s, "raise in _tokenize")
+                    act = "liftw (Raise (TokenizeError (s_idx stream)))"
+                return "\n".join(self.lifted(pre) + [f"if {c} then {act}", "else", nxt()])
+            # a chain whose branches yield one token or pass
+            branches, node = [], s
+            while True:
+                pre, c = self.test(node.test)
+                if pre:
+                    bad(node, "effectful test in a yield chain")
+                branches.append((c, node.body))
+                if len(node.orelse) == 1 and isinstance(node.orelse[0], ast.If):
+                    node = node.orelse[0]
+                    continue
+                if not node.orelse:
+                    bad(s, "yield chain without else")
+                branches.append((None, node.orelse))
+                break
+            out = []
+            for i, (c, b) in enumerate(branches):
+                if len(b) != 1:
+                    bad(s, "branch of a yield chain")
+                if isinstance(b[0], ast.Pass):
+                    blk = "liftw (Ok stream)"
+                elif isinstance(b[0], ast.Expr) and isinstance(b[0].value, ast.Yield):
+                    lines, new = self.yield_stmt(b[0].value)
+                    if not new:
+                        bad(s, "branch does not scan")
+                    blk = "\n".join(lines + [f"liftw (Ok {new})"])
+                else:
+                    bad(s, "branch of a yield chain")
+                out.append(f"(\n{blk}\n)" if c is None else f"if {c} then (\n{blk}\n) else")
+            return "dow stream <- (" + " ".join(out) + ");\n" + nxt()
+        bad(s, "statement in _tokenize")
+
+    def translate(self):
+        body = list(self.node.body)
+        if body and isinstance(body[0], ast.Expr) and isinstance(body[0].value, ast.Constant):
+            body = body[1:]
+        if len(body) != 2 or ast.unparse(body[0]) != "stream = StreamBuffer(text)":
+            bad(self.node, "_tokenize is not `stream = StreamBuffer(text); while True: ...`")
+        self.env["stream"] = "stream"
+        w = body[1]
+        if not (isinstance(w, ast.While) and isinstance(w.test, ast.Constant) and w.test.value is True and not w.orelse):
+            bad(w, "loop of _tokenize")
+        loop = self.wstmts(list(w.body), lambda: "tokenize_src_w1 __fuel stream")
+        out = ("Fixpoint tokenize_src_w1 (__fuel0 : nat) (stream : OptModel.stream) : wres unit :=\n"
+               "match __fuel0 with O => liftw (Raise OutOfFuel) | S __fuel =>\n" + loop + "\nend.\n")
+        out += ("Definition tokenize_src (text : str) : list token * option exn :=\n"
+                "let stream := new_stream text in\n"
+                "let '(__ts, __r) := tokenize_src_w1 (fuel_of stream) stream in\n"
+                "(__ts, match __r with Ok _ => None | Raise __e => Some __e end).\n")
+        return out
+
+
 class Module:
     def __init__(self, source):
         tree = ast.parse(source)
@@ -840,6 +1038,11 @@ def translate(source, which=None):
         out.append(f"(* {name} *)")
         out.append(fn.translate())
         mod.done.append(name)
+    if which is None:
+        if "_tokenize" not in mod.funcs:
+            raise Untranslatable("function _tokenize not found")
+        out.append("(* _tokenize *)")
+        out.append(TokFn(mod).translate())
     return "\n".join(out)
 
 
